@@ -792,6 +792,23 @@ func (c *Cluster) RemoveNode(n *Node) {
 	n.SetDown(true)
 }
 
+// ReturnNode puts a node that was removed back into the cluster, as it was (same id, same address), and lets it
+// accept connections again.
+func (c *Cluster) ReturnNode(n *Node) {
+	c.mu.Lock()
+	present := false
+	for _, x := range c.Nodes {
+		if x == n {
+			present = true
+		}
+	}
+	if !present {
+		c.Nodes = append(c.Nodes, n)
+	}
+	c.mu.Unlock()
+	n.SetDown(false)
+}
+
 // SetAddr moves n to a new address (its connections are closed).
 func (c *Cluster) SetAddr(n *Node, ip net.IP) {
 	c.mu.Lock()
